@@ -873,7 +873,8 @@ def check_C16(tier, seed):
     # formatter on, and whole realistic shaders with CRLF line endings / BOM-free unicode
     seeds = seed_sources(rng, 6, 6)
     for i, (name, text) in enumerate(seeds):
-        for j, v in enumerate([text, text.replace("\n", "\r\n"), text.replace("\n", "\r\n", 3), "// caf\u00e9 \U0001F600 \"q\" \\n {x}\n" + text]):
+        for j, v in enumerate([text, text.replace("\n", "\r\n"), text.replace("\n", "\r\n", 3), "// caf\u00e9 \U0001F600 \"q\" \\n {x}\n" + text,
+                               "\n\n  \t" + text, text + "  \n\n\t ", " " + text.rstrip("\n"), text.replace("\n", "\n\n") + "\x0c\x0b"]):
             cases.append({"id": "src-real-%03d-%d" % (i, j), "family": "source-real", "wgsl": v, "opts": F.opts(rustfmt=(j % 2 == 1))})
             cases.append({"id": "src-real-%03d-%d-inc" % (i, j), "family": "source-real-include", "wgsl": v, "opts": F.opts(include="dir with space/sh\\ader\"%d.wgsl" % j)})
     drive_and_judge(rep, "C16", cases, "static", ["source", "nosource_sha"])
